@@ -748,19 +748,19 @@ int asn1_bit_string_from_der_ex(int tag, const uint8_t **bits, size_t *nbits, co
 	(*in)++;
 	(*inlen)--;
 
-	// length (min == 2)
+	// length (min == 1: the unused-bits octet alone is the empty BIT STRING)
 	if (asn1_length_from_der(&len, in, inlen) != 1) {
 		error_print();
 		return -1;
 	}
-	if (len < 2) {
+	if (len < 1) {
 		error_print();
 		return -1;
 	}
 
 	// unused_bits counter
 	unused_bits = **in;
-	if (unused_bits > 7) {
+	if (unused_bits > 7 || (len == 1 && unused_bits)) {
 		error_print();
 		return -1;
 	}
